@@ -104,15 +104,28 @@ fn index_provenance(cx: &mut Ctx, src: &sm::Src) {
     cx.rule(rule, "index provenance: every byte index used for truncation / slicing / split_at / insert derives from char_indices(), find(), len() or an ASCII-digit count of the SAME string; the string precision counts characters and is applied before padding; widths are bounded to i32 at parse time");
     cx.floor(rule, 6);
     let t = sm::tsx(&src.file);
-    let checks: [(&str, &str, &str); 7] = [
+    let checks: [(&str, &str, &str); 6] = [
         ("string-precision", "lettruncated=self.precision.and_then(|precision|{let(index,_)=s.char_indices().nth(precision)?;Some(TruncatedStr{inner:&s[..index],char_len:precision,})});", "format_string cuts at the byte index of the precision-th character (char_indices().nth) and announces `precision` characters"),
         ("no-truncate", "", "no String::truncate with a spec-supplied index"),
         ("separator-split", "letint_end=magnitude_str.find(&['.','e','E','%'][..]).unwrap_or(magnitude_str.len());let(magnitude_int_str,rest)=magnitude_str.split_at(int_end);", "the integer part ends at find(['.','e','E','%']) or len()"),
         ("width-bound", "ifwidth.is_some_and(|width|(i32::MAXasusize)<width){returnErr(FormatSpecError::DecimalDigitsTooMany);}", "FormatSpec::parse rejects widths above i32::MAX (the padding arithmetic is i32)"),
         ("precision-bound", "if(i32::MAXasusize)<size{returnErr(FormatSpecError::PrecisionTooBig);}", "parse_precision rejects precisions above i32::MAX"),
-        ("num-digits", "for(index,character)intext.char_indices(){if!character.is_ascii_digit(){returnindex;}}text.len()", "get_num_digits returns a char_indices() index or len()"),
         ("fill-align", "let(maybe_align,remaining)=FormatAlign::parse(&text[char_indices[1].0..]);", "parse_fill_and_align slices at the byte index of the second character"),
     ];
+    // get_num_digits: the result is a byte offset taken from char_indices() (or len()), never a character count
+    match src.free_fns("get_num_digits").into_iter().next() {
+        None => cx.anchor_missing(rule, "get_num_digits"),
+        Some(f) => {
+            let t = sm::tsc(&f.block);
+            let forbidden = [".chars().count()", ".enumerate()", ".chars().position(", ".chars().take_while(", "+1", "-1"];
+            let bad: Vec<&str> = forbidden.iter().copied().filter(|x| t.contains(x)).collect();
+            if t.contains("text.char_indices()") && t.contains("text.len()") && t.contains("is_ascii_digit()") && bad.is_empty() {
+                cx.ok(rule, "get_num_digits returns a char_indices() byte offset of the first non-digit, or len()");
+            } else {
+                cx.fail(rule, &format!("{}/num-digits", rule), &src.loc(f), &format!("expected index discipline not found: get_num_digits returns a char_indices() index or len() (found {:?})", bad));
+            }
+        }
+    }
     for (k, frag, what) in checks {
         if k == "no-truncate" {
             if !t.contains(".truncate(") {
@@ -281,7 +294,7 @@ fn parse_order(cx: &mut Ctx, src: &sm::Src) {
         cx.fail(rule, &format!("{}/zero-flag", rule), &src.loc(m), "the zero flag is not `if zero && fill.is_none() { fill = '0'; align = align.or(AfterSign) }`: an explicit alignment without fill would lose the zero padding");
     }
     // parse_fill_and_align: fill only when the SECOND char is an alignment
-    if sm::tsc(&src.file).contains("matchmaybe_align{Some(_)=>{(Some(char_indices[0].1),maybe_align,remaining)},_=>{let(only_align,only_align_remaining)=FormatAlign::parse(text);(None,only_align,only_align_remaining)},}") {
+    if sm::tsc(&src.file).contains("matchmaybe_align{Some(_)=>(Some(char_indices[0].1),maybe_align,remaining),_=>{let(only_align,only_align_remaining)=FormatAlign::parse(text);(None,only_align,only_align_remaining)},}") {
         cx.ok(rule, "fill is taken only when the second character is an alignment character");
     } else {
         cx.fail(rule, &format!("{}/fill-align", rule), &src.rel, "parse_fill_and_align does not take the fill only when the second character is an alignment");
